@@ -69,7 +69,7 @@ claim("C07", "E3", "explicit-state BFS over edit histories to a fixpoint; "
 claim("C17", "E2", "stateless deviation-bounded exploration of fault and "
       "crash points at every filesystem operation of the real edit "
       "(FS-operation shim, crash = snapshot from the OS)",
-      "every choice vector with <=1 (quick) / <=2 (thorough) injected faults "
+      "every choice vector with <=2 injected faults "
       "over the filesystem operations the real edit performs: crash before "
       "each operation, errno failures, partial / short raw writes; verdict on "
       "the metafile path at the crash snapshot or after the error",
